@@ -256,6 +256,20 @@ def check(case):
                 state.load(fp)
                 require(same_params(want_p, params_of(state)), "load:not-bit-identical-after-tiny-drift",
                         "load() did not restore the saved parameters bit for bit into a model whose parameters had drifted by ~1e-9")
+                # ... and once more from the SAME unchanged file: drift again (in place), load again; then a second model auto-constructed from
+                # that file must be independent of the first (an in-place change of one does not reach the other)
+                for p_ in (q_ for net in state.networks for q_ in getattr(state, net).parameters()):
+                    p_.data.mul_(1 - 1e-9).sub_(1e-12)
+                state.load(fp)
+                require(same_params(want_p, params_of(state)), "load:not-bit-identical-second-load-of-unchanged-file",
+                        "a second load() of the same unchanged file (after the parameters had drifted in place again) did not restore the saved parameters bit for bit")
+                twin_ = cls[spec["type"]].autoload(fp, gpu=False)
+                for p_ in (q_ for net in state.networks for q_ in getattr(state, net).parameters()):
+                    p_.data.add_(0.25)
+                require(same_params(want_p, params_of(twin_)), "autoload:aliases-another-model",
+                        "a model auto-constructed from a file changes when another model loaded from the same file is updated in place")
+                state.load(fp)
+                require(same_params(want_p, params_of(state)), "load:not-bit-identical-second-load-of-unchanged-file", "a third load() of the same unchanged file did not restore the saved parameters")
                 labels.add("drift_restore")
             elif kind == "reinit":
                 state.reinitialize_parameters()      # creates NEW parameter objects (unlike the in-place 'randomise')
